@@ -56,12 +56,12 @@ class FitYamlWriter(YamlWriterMixin, FitDReprBase):
             _cost = self._kafe_object.cost_function_value
             _ndf = self._kafe_object.ndf
             if _gof is None:
-                _round_cost_sig = 2 if _cost == 0 else max(2, int(-np.floor(np.log(np.abs(_cost)) / np.log(10))) + 1)
+                _round_cost_sig = 2 if _cost == 0 or not np.isfinite(_cost) else max(2, int(-np.floor(np.log(np.abs(_cost)) / np.log(10))) + 1)
                 _rounded_cost = round(_cost, _round_cost_sig)
                 _preface_comment += "# Cost: %s\n" % _rounded_cost
             else:
                 _preface_comment += "# %s: %s\n" % (_gof_name, _gof)
-                if _gof == 0 or not _ndf:
+                if _gof == 0 or not _ndf or not np.isfinite(_gof):
                     _round_gof_per_ndf_sig = 2
                 else:
                     _round_gof_per_ndf_sig = max(2, int(-np.floor(np.log(np.abs(_gof) / _ndf) / np.log(10))) + 1)
